@@ -219,7 +219,7 @@ def diag(r):
     return (m.group(1) if m else r.get("message", "") or txt[:160]).strip()
 
 
-def random_vecs(bs, n, seed, nseps=10):
+def random_vecs(bs, n, seed, nseps=11):
     rng = random.Random(seed * 1000003 + 17)
     out = []
     for k in range(n):
@@ -265,7 +265,7 @@ def layout_half(rep, tier, seed, record=None):
     for v in vecs:
         twins.append({"g": v["g"], "gaps": repaired(v["gaps"], bs[v["g"] - 1]["toks"])})
     for gi, b in enumerate(bs):
-        for k in range(1, 11):
+        for k in range(1, 12):
             twins.append({"g": gi + 1, "gaps": repaired([k] * (len(b["toks"]) + 1), b["toks"])})
     r, vs = tlc_variants(bs, vecs + twins, pairs=(tier != "quick"))
     seps = None
